@@ -146,6 +146,9 @@ func checkSub(c Case, file *syntax.File, dopts norm.DumpOpts) string {
 	if vh.Excluded("C01-keeppadding-lone-node") && c.Cfg.KeepPadding {
 		return ""
 	}
+	if vh.Excluded("C01-lone-multiline-array") && cd.kind != "word" && synex.MultilineArray(cd.n) {
+		return ""
+	}
 	if vh.Excluded("C01-lone-nested-subshell") && cd.kind != "word" && synex.LoneSubshellParen(cd.n) {
 		return ""
 	}
